@@ -164,6 +164,27 @@ def model_check(ctx, family, module, cfg, **kw):
     return r
 
 
+def tlaps(ctx, family, module, timeout=900):
+    """Check a TLAPS proof module (scratch copy; tlapm litters .tlacache).  A proof that does not go through says
+    something about the specification, not about the code: inconclusive."""
+    d = os.path.join(ctx.work, "tlaps-" + module)
+    shutil.rmtree(d, ignore_errors=True)
+    os.makedirs(d)
+    for src in (os.path.join(ROOT, "spec", family), os.path.join(ROOT, "spec", "common")):
+        for f in os.listdir(src):
+            if f.endswith(".tla"):
+                shutil.copy(os.path.join(src, f), d)
+    t0 = time.time()
+    rc, out = run(["tlapm", "--threads", "16", module + ".tla"], cwd=d, timeout=timeout)
+    m = re.search(r"All (\d+) obligations? proved", out)
+    log("  tlapm %s: rc=%d %s %.1fs" % (module, rc, m.group(0) if m else "NOT PROVED", time.time() - t0))
+    ctx.cmds.append("tlapm --threads 16 %s.tla" % module)
+    shutil.rmtree(d, ignore_errors=True)
+    if rc != 0 or not m:
+        raise Inconclusive("TLAPS proof %s/%s did not go through:\n%s" % (family, module, out[-3000:]))
+    return int(m.group(1))
+
+
 # ---------------------------------------------------------------------------------------------
 RE_NODE = re.compile(r'^(-?\d+) \[label="((?:[^"\\]|\\.)*)"')
 RE_EDGE = re.compile(r'^(-?\d+) -> (-?\d+) \[label="((?:[^"\\]|\\.)*)"')
